@@ -285,6 +285,14 @@ class Gen:
         c = r.random()
         if r.random() < 0.07:
             return self.alias_probe(sc)
+        if r.random() < 0.04:
+            # a function literal whose value is not used: creating a function runs nothing
+            body = [Core("print", [Str("never")])]
+            if r.random() < 0.5:
+                body.append(Return(Int(99)))
+            else:
+                body.append(Int(98))
+            return Fn([Param("p%d" % r.randrange(100))] if r.random() < 0.5 else [], Block(body))
         if depth <= 0:
             c = c * 0.5
         if c < 0.22:
